@@ -152,20 +152,22 @@ func (g *Gen) heap0(h string, sort string) string {
 
 // State is one symbolic path state.
 type State struct {
-	g       *Gen
-	heaps   map[string]string
-	pc      []string
-	fr      *Frame
-	old     map[string]string // heaps at entry of the verified function
-	written map[string]bool
-	dead    bool
-	pathLog []string
-	loopSt  map[int]*loopEntry
-	dry     *dryRun
-	vc      *FuncVC
-	spawned []spawnRec
-	axioms  []axiomTerm // assumed lazily: added to an obligation only when relevant to its goal
-	quiet   bool        // spec translation: assumptions produced by loads are dropped
+	g        *Gen
+	heaps    map[string]string
+	pc       []string
+	fr       *Frame
+	old      map[string]string // heaps at entry of the verified function
+	written  map[string]bool
+	dead     bool
+	pathLog  []string
+	loopSt   map[int]*loopEntry
+	dry      *dryRun
+	vc       *FuncVC
+	spawned  []spawnRec
+	step     *stepState // thread-modular mode
+	inAtomic bool
+	axioms   []axiomTerm // assumed lazily: added to an obligation only when relevant to its goal
+	quiet    bool        // spec translation: assumptions produced by loads are dropped
 }
 
 type axiomTerm struct {
@@ -180,7 +182,7 @@ type loopEntry struct {
 
 func (st *State) clone() *State {
 	n := &State{g: st.g, heaps: make(map[string]string, len(st.heaps)), old: st.old, written: make(map[string]bool, len(st.written)),
-		loopSt: map[int]*loopEntry{}, dry: st.dry, vc: st.vc, axioms: st.axioms, spawned: append([]spawnRec(nil), st.spawned...)}
+		loopSt: map[int]*loopEntry{}, dry: st.dry, vc: st.vc, axioms: st.axioms, spawned: append([]spawnRec(nil), st.spawned...), step: st.step.clone(), inAtomic: st.inAtomic}
 	for k, v := range st.heaps {
 		n.heaps[k] = v
 	}
@@ -260,6 +262,7 @@ func locSort(l *Loc) string {
 }
 
 func (st *State) loadLoc(l *Loc) Val {
+	st.sharedAccess(l.Heap, false)
 	h := st.cur(l.Heap, locSort(l))
 	var t string
 	if l.Sub != "" {
@@ -294,6 +297,7 @@ func (st *State) assumeRange(t types.Type, term string) {
 }
 
 func (st *State) storeLoc(l *Loc, v Val) {
+	st.sharedAccess(l.Heap, true)
 	sort := locSort(l)
 	h := st.cur(l.Heap, sort)
 	var t string
